@@ -22,7 +22,7 @@ REQUIRED_THEOREMS = [
     "Acn.C06.linear_conservative", "Acn.C06.linear_conservative_entry", "Acn.C06.gen_tolerances",
     "Acn.Feas.algFeasible_convex", "Acn.Feas.algFeasible_interval",
 ]
-BUDGET = {"quick": 900, "thorough": 12000, "search": 6000}
+BUDGET = {"quick": 900, "thorough": 30000, "search": 6000}
 TRUSTED = [
     "numpy: `@` on real/complex arrays, np.abs of complex (hypot), np.linalg.norm(axis=0), np.maximum, np.tile, "
     "np.exp(1j·x)/np.cos/np.sin — the phasor coordinates are passed to the model as the doubles numpy produced",
@@ -795,6 +795,11 @@ def features(case, obs):
         if k in obs:
             out.append(f"{k}:{obs[k]}")
     out.append("infra:" + ("ok" if obs["infra"]["err"] is None else obs["infra"]["err"]))
+    if "sel_sq" in obs:
+        sel = case["sel"]
+        out.append("current_select:" + ("names" if sel["names"] is not None else "all") + "/" +
+                   ("times" if sel["ts"] is not None else "all") +
+                   (":" + obs["sel_sq"] if isinstance(obs["sel_sq"], str) else ""))
     return out
 
 
